@@ -7,8 +7,8 @@ d=/verif/seeded/$name
 prop=$(python3 -c "import json;print(json.load(open('$d/meta.json'))['property'])")
 W=/tmp/verif-seed-repo-$$
 git -C /repo worktree add -q --detach $W HEAD || exit 2
-trap 'git -C /repo worktree remove --force $W >/dev/null 2>&1' EXIT
+trap 'git -C /repo worktree remove --force $W >/dev/null 2>&1; rm -rf /tmp/verif-seed-evidence-$$ /tmp/verif-seed-replays-$$' EXIT
 git -C $W apply $d/patch.diff || { echo "patch does not apply"; exit 2; }
-out=$(VERIF_REPO=$W VERIF_EVIDENCE_DIR=/tmp/verif-seed-evidence VERIF_REPLAY_DIR=/tmp/verif-seed-replays /verif/govc/bin/govc check -p $prop -tier $tier 2>&1); rc=$?
+out=$(VERIF_REPO=$W VERIF_EVIDENCE_DIR=/tmp/verif-seed-evidence-$$ VERIF_REPLAY_DIR=/tmp/verif-seed-replays-$$ /verif/govc/bin/govc check -p $prop -tier $tier 2>&1); rc=$?
 echo "$out" | grep -E '^(FAILED OBLIGATION|VIOLATION|BOUNDED|property|KNOWN)' | cut -c1-260 | head -${3:-12}
 echo "seed $name ($prop): rc=$rc"
